@@ -131,6 +131,8 @@ finding("C06-array-slices", "C06", "`${a[@]:o:l}` on sparse / associative arrays
         all=["kind:array"])
 
 fixed("C06", "assigns to the variable that ref names", "`r=v; unset v; ${!r:=d}` assigned to `r` instead of `v`")
+finding("C06-trailing-backslash", "C06", "a pattern ending in an unescaped backslash matches a trailing backslash of the value; in bash it matches nothing (see C08-trailing-backslash)",
+        all=["pat:trailing-backslash"], why="same as C08-trailing-backslash")
 finding("C06-negated-alternation", "C06", "`!(a|ab)` matches `ab` (and `!(a|a*)` matches `aa`): the negated group is translated to `(?:(?!a|ab).*|(?>a|ab).+?|)`, whose atomic second arm commits to the first alternative that fits and lets the rest of a longer alternative count as the 'extra' text",
         all=["pat:negated-alternation"], why="needs a different translation of !( ) (a whole-region negative look-ahead), not a local patch; `!(ab|a)` with the longer alternative first works")
 finding("C06-alternation-first-not-longest", "C06", "`${v/@(a|ab)/X}` on `ab` gives `Xb` (bash `X`): the substitution operators take the regex engine's first successful alternative instead of the longest match; `#`/`##`/`%`/`%%` are not affected (they test every prefix/suffix)",
@@ -170,6 +172,8 @@ finding("C08-trailing-backslash", "C08", "a pattern ending in an unescaped backs
         all=["pat:trailing-backslash"], why="unspecified by POSIX; bash's matcher fails the match at the dangling escape, brush's translation escapes the end of the regex")
 finding("C08-negated-match-all", "C08", "`!(*)` matches the empty string (nothing can match the negation of a pattern that matches everything): the translation of `!( )` ends in an empty alternative",
         all=["pat:negated-match-all", "pat:extglob-group"], why="same translation as C06-negated-alternation: `(?:(?!P).*|(?>P).+?|)`; needs a whole-region look-ahead")
+finding("C08-quoted-member-in-bracket", "C08", "inside a bracket expression written in the source, a quoted or escaped `-`, `!` or `^` still acts as range / negation operator (`[a\"-\"c]` matches `b`, `[\"!\"a]` does not match `a`), and a word whose bracket expression contains a quoted or escaped `]` is not pathname-expanded at all (`[a\"]\"]` stays literal although files `a` and `]` exist); `[[ ]]`, `case` and the parameter-expansion operators handle the quoted `]`",
+        all=["quoted-bracket-member"], why="quote removal hands the glob grammar an escaped text in which only regex-special characters are protected; protecting `-`/`!`/`^` as well changes how every literal piece is escaped and needs a review of the regex post-processing (`add_missing_escape_chars_to_regex`)")
 finding("C08-extglob-empty-alternative", "C08", "extglob groups with an empty alternative (`*@()`, `*!()`, `!(|)`) disagree with bash on the empty subject and on subjects that only the empty alternative accounts for",
         all=["pat:empty-alternative", "pat:extglob-group"], why="the extglob-to-regex translation gives `()` the regex meaning; bash itself is irregular here (see C06 false-alarm note), a repair would have to mirror bash's matcher case by case")
 finding("C08-extglob-paren-inside-group", "C08", "`*(()`, `?(()`, `!(()`: a bare `(` inside an extglob group (bash takes the pattern as unbalanced and matches nothing; brush matches the empty repetition)",
@@ -201,12 +205,17 @@ finding("C09-local-unset-elem", "C09", "`local a; unset 'a[0]'` status", all=["a
 finding("C09-unset-exported", "C09", "`export x; unset x` / re-declaration keeps or drops the export flag differently", all=["act:unset-x"])
 finding("C09-local-shadows-readonly", "C09", "`local r=…` shadowing a readonly global is accepted (bash refuses) and later writers then act on the local", all=["act:local-r"])
 finding("C09-declare-x-attr-combos", "C09", "`declare -x x` combined with -i/-l/-u loses or reorders attributes in `declare -p`", all=["act:declare-x"])
+finding("C09-local-inherits-temp-assignment", "C09", "`f() { local x; echo ${x-UNSET}; }; x=tmp f`: in bash a `local x` without a value inherits the value of the temporary assignment of the call (prints tmp); brush creates an unset local",
+        all=["act:tmp-function-local"], why="bash-specific inheritance rule of `local`; needs the command scope to be consulted when a local is created")
+finding("C09-export-of-temp-assignment-persists", "C09", "`f() { export x; }; x=tmp f`: bash keeps `x=tmp` exported in the caller after the call (exporting a temporary binding promotes it); brush restores the previous binding",
+        all=["act:tmp-function-export"], why="bash-specific promotion rule; the temporary binding would have to be merged into the enclosing scope when its attributes change")
 finding("C09-unset-exported-a", "C09", "same for arrays", all=["act:unset-a"])
 
 # ---------------------------------------------------------------------------------------------- C10
 finding("C10-heredoc-continuation-before-delimiter", "C10", "in an unquoted here-document a body line ending in a backslash is joined with the next line only after the delimiter has been looked for: `a\\<newline>EOF` ends the document (bash reads on, the joined line `aEOF` is not the delimiter)",
         all=["heredoc", "line:trailing-backslash"], why="the tokenizer's delimiter search would have to process continuations; the common case (continuation between ordinary body lines) was repaired")
 
+fixed("C10", "word of a here-string is not brace-expanded", "`cat <<<{1,2}` printed `1 2`")
 # ---------------------------------------------------------------------------------------------- C11
 finding("C11-nonfinal-compound-stage-inline", "C11", "a function, brace group, subshell or loop in a non-final pipeline position is executed inline while the pipeline is still being set up: with more data than the pipe holds (or an early-exit reader) the pipeline hangs",
         all=["nonfinal-compound-stage", "hang"], why="pipeline set-up design: compound stages must become concurrent tasks")
